@@ -326,7 +326,12 @@ func init() {
 	regProp("C07", "proof", "VM.Run's prologue, executed from an arbitrary VM state (any history of earlier runs), establishes the fresh state at the first entry of the interpreter loop (ip, pp, empty stack and scopes, memory 0, limit, bytecode, constants); every VM field the run reads is pinned by these assertions; re-slicing of the VM's arrays never reaches beyond len (stale slots unreadable)",
 		[]string{`^vm\.VM\.Run/loop:0/entry\[`, `^vm\.VM\.Run/fields-reset`, `reslice-within-len`, `^vm\.VM\.Run/pre-sat$`, `^vm\.VM\.Run/loop:0/inv-sat$`}, nil)
 	regProp("C06", "proof", "ghost counter galloc (collection elements created by this run, incremented by the engine at every MakeSlice/MapUpdate of a language-level collection in VM.Run and makeRange) is tied to vm.memory by the loop invariant memory == galloc < limit for every opcode case; a budget refusal is justified only when the elements needed reach the limit; makeRange creates exactly max(0, max-min+1) elements",
-		[]string{`inv-(init|pres)\[(galloc|budget|mem-lo|static|count|pops|i)\]`, `refused-only-if-needed`, `^vm\.makeRange/`, `^vm\.VM\.Run/pre-sat$`, `inv-sat$`, `/cover$`}, nil)
+		[]string{`inv-(init|pres)\[(galloc|budget|mem-lo|static|count|pops|i)\]`, `refused-only-if-needed`, `^vm\.makeRange/`, `^vm\.VM\.Run/pre-sat$`, `inv-sat$`, `/cover$`}, func(w *World, res *CheckResult) {
+			// the assumption "compiled programs hand OpArray / OpMap a non-negative size" is discharged on the compiler's templates
+			obls, _ := templateObls(w, func(n string) bool { return strings.HasSuffix(n, "/size-nonneg") })
+			res.Obls = append(res.Obls, obls...)
+			res.Functions = append(res.Functions, "compiler.compiler.ArrayNode", "compiler.compiler.MapNode")
+		})
 	pureExtra := func(w *World, res *CheckResult) {
 		res.Obls = append(res.Obls, genPure(w)...)
 	}
